@@ -127,6 +127,82 @@ Section Lists.
       + rewrite app_length. cbn [List.length]. f_equal. lia.
   Qed.
 
+  (* ---------------- tail (the closure of the linked library) ---------------- *)
+  Definition tail_v : value := member fo lists_path "tail".
+  Definition tail_clo := fn_clo fo tail_v.
+  Definition tail_body : expr := Eval vm_compute in fn_body fo tail_v.
+  Lemma tail_v_eq : tail_v = VFunc [b "list"] tail_body tail_clo.
+  Proof. vm_compute. reflexivity. Qed.
+  Lemma lists_index_tail c : index fo c (import_value fo lists_path) (VStr (b "tail")) = Ok tail_v.
+  Proof. destruct c. vm_compute. reflexivity. Qed.
+
+  Definition tail_acc (n : Z) (x : list value) : value := VTuple [(b "count", VInt n); (b "tail", VList x)].
+  Definition tail_reducer_body : expr :=
+    Eval vm_compute in match tail_body with EBin DOT (EReduce (EFunc _ bd) _ _) _ => bd | _ => ENull end.
+  Lemma tail_step c clo n x v :
+    (0 <= n)%Z -> fits (n + 1) ->
+    calls c (VFunc [b "acc"; b "item"] tail_reducer_body clo) [tail_acc n x; v]
+          (tail_acc (n + 1) (if (0 <? n)%Z then x ++ [v] else [])).
+  Proof.
+    intros Hn Hfit. eapply calls_intro; [reflexivity|reflexivity|]. unfold tail_reducer_body.
+    destruct (0 <? n)%Z eqn:Hpos.
+    - eapply evals_eq.
+      + eapply ev_select.
+        * eapply ev_cmp; [reflexivity|dotsym|iv1|reflexivity].
+        * cbn [compare_num]. rewrite Hpos. reflexivity.
+        * eapply ev_copy; [iv1|]. eapply copies_tuple.
+          { eapply evf_cons; [|reflexivity|].
+            { eapply ev_add; [dotsym|iv1|]. cbn [arith' arith]. apply fits_chk, Hfit. }
+            eapply evf_cons; [|reflexivity|iv1].
+            eapply ev_add; [dotsym|ivs|reflexivity]. }
+          reflexivity.
+      + reflexivity.
+    - assert (n = 0)%Z by (apply Z.ltb_ge in Hpos; lia). subst n.
+      eapply evals_eq.
+      + eapply ev_select.
+        * eapply ev_cmp; [reflexivity|dotsym|iv1|reflexivity].
+        * reflexivity.
+        * eapply ev_copy; [iv1|]. eapply copies_tuple.
+          { eapply evf_cons; [iv1|reflexivity|]. eapply evf_cons; [ivs|reflexivity|iv1]. }
+          reflexivity.
+      + reflexivity.
+  Qed.
+  Definition tail_step_fn (a v : value) : value :=
+    match a with
+    | Sem.VTuple _ [(_, Sem.VInt _ n); (_, Sem.VList _ x)] => tail_acc (n + 1) (if (0 <? n)%Z then x ++ [v] else [])
+    | _ => a
+    end.
+
+  Lemma tail_calls c l :
+    fits (Z.of_nat (List.length l)) -> calls c tail_v [VList l] (VList (tl l)).
+  Proof.
+    intros Hfit. rewrite tail_v_eq.
+    eapply calls_intro; [reflexivity|reflexivity|]. unfold tail_body.
+    destruct (reduce_list_is_fold_pre fo std_imports []
+                (fctx fo c ((b "list", VList l) :: tail_clo))
+                (EFunc [b "acc"; b "item"] tail_reducer_body)
+                (ETuple [(b "count", EInt 0); (b "tail", EList [])]) (ESym (b "list"))
+                (b "acc") (b "item") tail_reducer_body ((b "list", VList l) :: tail_clo)
+                (tail_acc 0 []) l
+                (fun pre a => a = tail_acc (Z.of_nat (List.length pre)) (tl pre)) tail_step_fn) as [Hev HI].
+    - apply ev_func.
+    - iv1. fld1. flds. iv1.
+    - iv1.
+    - reflexivity.
+    - intros pre v post a El ->. cbn [tail_step_fn tail_acc].
+      assert (Hlen : (Z.of_nat (List.length pre) + 1 <= Z.of_nat (List.length l))%Z).
+      { rewrite El, app_length. cbn [List.length]. lia. }
+      split.
+      + apply tail_step; [lia|].
+        apply (fits_between _ 0 (Z.of_nat (List.length l))); [apply fits_0|exact Hfit|lia].
+      + rewrite app_length. cbn [List.length].
+        replace (Z.of_nat (List.length pre + 1)) with (Z.of_nat (List.length pre) + 1)%Z by lia.
+        destruct pre as [|p pre]; [reflexivity|].
+        replace (0 <? Z.of_nat (List.length (p :: pre)))%Z with true by (symmetry; apply Z.ltb_lt; cbn [List.length]; lia).
+        reflexivity.
+    - rewrite HI in Hev. eapply ev_dot_sym; [exact Hev|reflexivity].
+  Qed.
+
   (* ---------------- zip ---------------- *)
   Definition zip_v : value := member fo lists_path "zip".
   Definition zip_pkg_clo := pkg_clo fo zip_v.
